@@ -2,8 +2,11 @@
 
 translate : payload key constants + the guards of serde.dump / load / _load and the shape of
             Expression.__reduce__ (ast of sqlglot/serde.py, sqlglot/expressions/core.py) -> Generated/C12.lean
-prove     : Properties/C12.lean (dump = pre-order; load(dump t) = norm t for every tree; closed form of the loaded
-            object graph incl. parent links; norm is a projection invisible to dump; payload keys distinct)
+prove     : Properties/C12.lean (dump = pre-order; load(dump t) = norm t for every tree incl. Expression-valued meta;
+            closed form of the loaded object graph; load_links (C08 invariant of rebuilt trees); every accepted payload
+            list gives a closed, acyclic, hash-free graph and exactly which lists are accepted; dump_json; pickle =
+            load . dump with no cached hash; copy t = t for the iterative __deepcopy__ with hash invalidation, the copy
+            shares no node and invents no hash)
 correspond: real trees (parsed in many dialects, raw / annotate_types / qualify; directly constructed instances of
             every Expression subclass covering every arg kind) -> real dump() payloads compared element-wise with the
             model's dump, model load of the real payloads compared with the real load(); plus mutated payload lists
@@ -39,6 +42,9 @@ THEOREMS = [
     "SqlglotModel.Properties.C12.unpickled_no_hash",
     "SqlglotModel.Properties.C12.stale_hash_witness",
     "SqlglotModel.Properties.C12.copy_eq",
+    "SqlglotModel.Properties.C12.copy_shares_no_node",
+    "SqlglotModel.Properties.C12.copy_hashes_from_source",
+    "SqlglotModel.Properties.C12.load_accepts",
     "SqlglotModel.Properties.C12.generated_ok",
     "SqlglotModel.Properties.C12.duplicate_keys_witness",
 ]
@@ -71,6 +77,31 @@ EXPECTED_ASSIGN = {
     ("_load", "expression.comments"): "payload.get(COMMENTS)",
 }
 EXPECTED_REDUCE = "(load, (dump(self),))"
+# Expression methods of sqlglot/expressions/core.py the model mirrors (`attach`, `clearUp`, `copyLoopWith`): guards in
+# source order, and the ordered (target, value) list of their simple assignments
+EXPECTED_CORE = {
+    "__deepcopy__": (
+        ["while stack", "if node.comments is not None", "if node._type is not None", "if node._meta is not None",
+         "if node._hash is not None", "for node.args.items()", "if isinstance(vs, Expr)", "if type(vs) is list",
+         "for vs", "if isinstance(v, Expr)"],
+        [("root", "self.__class__()"), ("(node, copy)", "stack.pop()"), ("copy.comments", "deepcopy(node.comments)"),
+         ("copy._type", "deepcopy(node._type)"), ("copy._meta", "deepcopy(node._meta)"), ("copy._hash", "node._hash"),
+         ("copy.args[k]", "[]"), ("copy.args[k]", "vs")]),
+    "append": (
+        ["while node and node._hash is not None", "if type(self.args.get(arg_key)) is not list", "if isinstance(value, Expr)"],
+        [("values", "self.args[arg_key]"), ("node._hash", "None"), ("node", "node.parent"), ("self.args[arg_key]", "[]"),
+         ("value.index", "len(values)")]),
+    "set": (
+        ["while node and node._hash is not None", "if index is not None", "if seq_get(expressions, index) is None",
+         "if value is None", "for expressions[index:]", "if isinstance(value, list)", "if overwrite", "if value is None"],
+        [("self.args[arg_key]", "value"), ("node._hash", "None"), ("node", "node.parent"),
+         ("expressions", "self.args.get(arg_key) or []"), ("value", "expressions"), ("expressions[index:index]", "value"),
+         ("v.index", "v.index - 1"), ("expressions[index]", "value")]),
+    "_set_parent": (
+        ["if isinstance(value, Expr)", "if isinstance(value, list)", "for enumerate(value)", "if isinstance(v, Expr)"],
+        [("value.parent", "self"), ("value.arg_key", "arg_key"), ("value.index", "index"), ("v.parent", "self"),
+         ("v.arg_key", "arg_key"), ("v.index", "i")]),
+}
 
 
 # ------------------------------------------------------------------------------------------ translate
@@ -132,6 +163,16 @@ def translate(chk: Check) -> str:
             reduce_ok = len(rets) == 1 and rets[0].value is not None and ast.unparse(rets[0].value) == EXPECTED_REDUCE
     if not reduce_ok:
         problems.append("Expression.__reduce__ no longer returns (load, (dump(self),))")
+    for cls in [n for n in core.body if isinstance(n, ast.ClassDef) and n.name == "Expression"]:
+        found = {fn.name: fn for fn in cls.body if isinstance(fn, ast.FunctionDef)}
+        for name, (want_shape, want_assign) in EXPECTED_CORE.items():
+            fn = found.get(name)
+            got_shape = _shape(fn) if fn else None
+            got_assign = [(ast.unparse(n.targets[0]), ast.unparse(n.value)) for n in ast.walk(fn)
+                          if isinstance(n, ast.Assign) and len(n.targets) == 1] if fn else None
+            if got_shape != want_shape or got_assign != want_assign:
+                shape_ok = False
+                problems.append(f"Expression.{name} differs from the modelled one: {got_shape} {got_assign}")
     for p in problems:
         chk.broken.append({"kind": "translator", "what": "C12 translator: structure changed: " + p})
         chk.note("translator: " + p)
@@ -1026,6 +1067,20 @@ def oracle(t, dialects=SQL_DIALECTS, want=None, skip=(), sql_norm=False):
             for dname, x, y in zip(dialects, sqls, s2):
                 if x != y and not x.startswith("raised "):
                     return (name + "sql", f"{route}: .sql(dialect={dname}) differs: {x[:120]!r} vs {y[:120]!r}")
+        if route == "pickle" and hashable and on("pickle-edit"):
+            # the unpickled tree is a tree like any other: edit a leaf below the root, the property must still hold for it
+            # (a cached hash carried across pickle would now be stale: the tree would still == its unedited original)
+            try:
+                before = serde.load(serde.dump(l))
+                if _edit_leaf(l):
+                    l2 = serde.load(serde.dump(l))
+                    if not (l2 == l) or (l == before):
+                        return ("pickle-edit", "after editing a leaf of the unpickled tree, load(dump(x)) != x "
+                                               "or x still equals its unedited self (stale cached hash)")
+            except RecursionError:
+                raise
+            except Exception:
+                pass
     # copy(): everything, including None-valued args and empty lists, is kept
     try:
         c = t.copy()
@@ -1057,6 +1112,18 @@ def oracle(t, dialects=SQL_DIALECTS, want=None, skip=(), sql_norm=False):
             if x != y and not x.startswith("raised "):
                 return ("copy-sql", f"copy(): .sql(dialect={dname}) differs: {x[:120]!r} vs {y[:120]!r}")
     return None
+
+
+def _edit_leaf(root) -> bool:
+    """append to the first str arg of a proper descendant (through `set`, as any transformation would)"""
+    for n in root.walk():
+        if n is root:
+            continue
+        for k, v in n.args.items():
+            if type(v) is str:
+                n.set(k, v + "_x")
+                return True
+    return False
 
 
 def subtrees(tj):
@@ -1256,14 +1323,17 @@ def scan_value_kinds(chk: Check, trees: list) -> None:
 
 def run(chk: Check) -> None:
     quiet_logging()
-    chk.trusted.append("C12: hand-written model Model/Serde.lean of serde.dump/load/_load and Expression.set/append/_set_parent "
-                       "(arena of cells); the harness's own tree reader `conv` (vf/props/c12.py) that feeds trees to the model")
+    chk.trusted.append("C12: hand-written model Model/Serde.lean of serde.dump/load/_load, Expression.set/append/_set_parent with "
+                       "hash invalidation, __deepcopy__, __reduce__ (arena of cells); the harness's own tree reader `conv` and "
+                       "object-graph reader `arena_view` (vf/props/c12.py) that feed trees / graphs to the model")
     chk.assumptions += [
         "arg / meta values are None, bool, int, str, DType, Expression or (nested) lists of those; any other kind met in a parsed tree is listed in coverage.parsed_values_outside_model and judged by the search oracle (JSON round trip)",
         "class names are opaque strings in the model: importing the class by name (`_load`) is exercised by correspondence and search, not proved",
         "`node.type` is what dump reads (for Cast it falls back to `to`, for DataType it is the node itself and is skipped); the model takes that view",
         "a payload list whose INDEX points at itself or forwards (cyclic result) is outside the model",
-        "json.dumps/json.loads and pickle are faithful on JSON values (trusted CPython); pickling an Expression is load(dump(t)) by __reduce__ (checked by the translator)",
+        "ASSUMED, not modelled: the JSON *text* round trip json.loads(json.dumps(j)) == j for every JsonValue j (str-keyed dicts, lists, str/int/bool/None) and pickle's transport of such values (trusted CPython; exercised by the search oracle on every tree); the Lean side proves dump_json: every dumped payload is such a JsonValue",
+        "pickling an Expression is load(dump(t)) with no state by __reduce__ (shape checked by the translator, consequence unpickled_no_hash proved)",
+        "__deepcopy__ is modelled on a source tree plus a function hashOf saying which source nodes have a cached _hash (equal subtrees share their cache state); deepcopy of comments / raw meta values is value equality; a nested list value is shared by the real copy (not a node)",
         "None-valued args, empty-list args and comments == [] are identified with their absence (norm): no payload records them and ==, .sql(), .type, .comments-or-[] cannot see them",
     ]
     chk.write_generated(translate(chk))
